@@ -480,29 +480,34 @@ def suite_decapfuzz(rng, tier):
     # the same chains cut short INSIDE the packet (the GSE length agrees with the buffer, the chain runs past
     # the end of the packet), arriving while the receiver remembers a label: every such rejection is made by the
     # extension walker, not by the length guards, and the label memory afterwards is part of the comparison
-    s = Session("fz-extcut")
-    s.dec_new(2, 16, None)
-    for _ in range(3):
+    mchains = [[(0x0042, b"abc")], [(0x0090, b"zz")], [(0x0042, b"abc"), (0x0090, b"zz")], [(0x0101, b""), (0x0042, b"abc"), (0x0501, bytes(8)), (0x0090, b"zz")],
+               [(0x0055, b"12345"), (0x0081, b"")]]
+    for mgrx, chs in ((None, chains), ({0x42: ("N", 3), 0x81: ("F", 0), 0x90: ("F", 2), 0x55: ("N", 5)}, mchains)):
+      s = Session("fz-extcut" + ("" if mgrx is None else "-mgr"))
+      s.dec_new(2, 16, mgrx)
+      for _ in range(3):
         s.prov(16, 0)
-    for ch in chains:
-        body = b"".join(bytes([i >> 8, i & 0xFF]) + d for i, d in ch) + b"\x08\x00" + b"\xd1\xd2\xd3"
+      for ch in chs:
+        final = ch[-1][0] < 0x100 and mgrx is not None and mgrx.get(ch[-1][0], ("N",))[0] == "F"
+        body = b"".join(bytes([i >> 8, i & 0xFF]) + d for i, d in ch) + (b"" if final else b"\x08\x00") + b"\xd1\xd2\xd3"
         for cut in range(1, len(body) + 1):
-            for hdr, pre in ((0xe0, b""), (0xd0, b"\x01\x02\x03"), (0xa0, bytes([1, 0, 40]))):
-                if hdr == 0xd0:
-                    # complete packet with a 3-byte label: the label comes AFTER the type field
-                    pk = bytes([0xd0, (len(body[:2]) + 3 + len(body[2:cut])) & 0xFF]) + body[:2] + pre + body[2:cut] if cut >= 2 else None
-                elif hdr == 0xe0:
-                    pk = bytes([0xe0, cut]) + body[:cut]
-                else:
-                    pk = bytes([0xa0, 3 + cut]) + pre + body[:cut]
-                if pk is None:
-                    continue
-                s.decap("h:c00a0800616263646566beef")        # the receiver remembers a label again
-                s.prov(16, 0)
-                s.decap("h:" + pk.hex())
-                s.decap("h:f0050800aabbcc")                  # a re-use packet: resolved against what is remembered now
-                s.prov(16, 0)
-    out.append(s)
+              for hdr, pre in ((0xe0, b""), (0xd0, b"\x01\x02\x03"), (0xa0, bytes([1, 0, 40]))):
+                  if hdr == 0xd0:
+                      # complete packet with a 3-byte label: the label comes AFTER the type field
+                      pk = bytes([0xd0, (len(body[:2]) + 3 + len(body[2:cut])) & 0xFF]) + body[:2] + pre + body[2:cut] if cut >= 2 else None
+                  elif hdr == 0xe0:
+                      pk = bytes([0xe0, cut]) + body[:cut]
+                  else:
+                      pk = bytes([0xa0, 3 + cut]) + pre + body[:cut]
+                  if pk is None:
+                      continue
+                  s.decap("h:c00a0800616263646566beef")        # the receiver remembers a label again
+                  s.prov(16, 0)
+                  s.decap("h:" + pk.hex())
+                  s.decap("h:f0050800aabbcc")                  # a re-use packet: resolved against what is remembered now
+                  s.prov(16, 0)
+
+      out.append(s)
     # random and mutated-valid packets
     for r in range(40 if tier == "quick" else 600):
         st = rng.choice(STATES)
@@ -604,7 +609,8 @@ def suite_states(rng, tier):
             s.decap("h:%02x%02x01%04x0800%s%s" % (lt | (gl >> 8), gl & 0xFF, tl, lbytes.hex(), first_payload.hex()))
             for k in range(15):
                 s.decap("h:3fff01+g:%d:4094" % (8000 + k))
-            s.decap("h:3fff01+g:%d:4094" % (8014 if extra == "dup" else 8999))
+            # (followed by another packet in the same buffer: the refusal consumes the fragment only)
+            s.decap("h:3fff01+g:%d:4094+h:e0070800aabbccddee" % (8014 if extra == "dup" else 8999))
             crc = ref_gse_crc(data, 0x0800, tl, lbytes)
             egl = 1 + 3000 + 4
             s.decap("h:%04x01%s%08x" % (0x7000 | egl, last.hex(), crc))
